@@ -19,10 +19,16 @@ def run(ctx):
     rng = ctx.rng
     n = 4 if not ctx.thorough else 16
     ctx.rule("all optimizers that do not read Agent.fitness / Task.minmax (table obligation T12) × objectives {sphere, linear, rastrigin, neg} × bounds regimes × configs (1..4 cycles; plus every validator-accepted candidate value of every algorithm parameter once) × seeds; in a third of the pairs the maximising instance has just solved a task of the opposite direction: "
-             "plus one integer-valued (plateau) objective per class; run(max, f) vs run(min, -f): same positions generation by generation, costs exact negatives, bit for bit, and the trend utilities name the same agents at ranks 0/1/middle/last of every generation (ties included); a case = one pair of runs; non-trivial = ≥ 2 generations")
+             "plus weighted multi-objective tasks (2–3 objectives, random non-negative weights) and one integer-valued (plateau) objective per class; run(max, f) vs run(min, -f): same positions generation by generation, costs exact negatives, bit for bit, and the trend utilities name the same agents at ranks 0/1/middle/last of every generation (ties included); a case = one pair of runs; non-trivial = ≥ 2 generations")
     names = [x for x in optimizers.names() if x not in EXCLUDED]
     js = jobs.make_jobs(rng, names, ["cont-sym", "cont", "cont-zero", "cont-onesided", "mixed", "disc"], n, modes=("serial",), minmaxes=("max",), max_cycles_choices=(1, 2, 3, 4), trace_events=False)
     js += jobs.param_sweep_jobs(rng, names, kinds=("cont-sym", "cont"), max_cycles=2, objectives=("sphere", "rastrigin", "linear"), minmaxes=("max",))
+    # weighted multi-objective tasks (the scalarisation sits between the objective and the direction): max of the weighted sum of f vs min of that of -f
+    wj = jobs.make_jobs(rng, names, ["cont-sym", "cont", "multiobj"], 3 if not ctx.thorough else 8, modes=("serial",), minmaxes=("max",), max_cycles_choices=(2, 3), multi=True, trace_events=False)
+    wj = [j for j in wj if j.get("weights") is not None]
+    for j in wj:
+        j["kind"] = j["kind"] + "+weighted"
+    js += wj
     # integer-valued objective: generations with equal costs at different positions (the readers must break ties alike in both directions)
     for name in names:
         js.append({"name": name, "kind": "plateau", "specs": trace.task_specs(rng, rng.choice(["cont-sym", "cont"]), rng.choice([2, 3])), "objective": "plateau", "minmax": "max",
